@@ -108,6 +108,7 @@ def make(task):
         info['uses'] = new_uses
     d.cells.append(dk.Cell(total + 1, ('or', ('s', -1), ('s', total + 1)), imp=0))
     d.unparser = unparse_c10
+    d.mat_upper = rnd.choice([0, 0, 1, 2])        # some material cards are written 'M2 ...'
     return d, pre
 
 
